@@ -20,7 +20,7 @@ RULE = ('cases = (operator, left, right, key arguments, missing, prefixes, preso
         'keys from a 5-value pool (None, equal-but-different types, mixed), compound keys, lkey/rkey, natural key, ragged rows. '
         'Non-trivial: both sides non-empty with at least one matching and one non-matching key. Distinct = SHA-1 of the case.')
 ASSUMPTIONS = ['key equality is == on the squared-up key cells (the reference uses the model equivalence, which agrees with == on the generated domain)',
-               'antijoin does not square up its inputs: rectangular tables only']
+               'antijoin does not square up its rows: left rows come out as they are, and a key cell that a row lacks counts as None']
 MODES = ['both-empty', 'left-empty', 'right-empty', 'left-ends-first-after-mismatch', 'right-ends-first-after-mismatch',
          'both-end-on-match', 'left-ends-first-after-match', 'right-ends-first-after-match']
 OPS = ['join', 'leftjoin', 'rightjoin', 'outerjoin', 'lookupjoin', 'antijoin']
@@ -94,7 +94,8 @@ def cases(ctx):
         rhdr = rkn + ([2020, 'b2'] if nonstr else ['b', 'b2'])[:rng.randint(0, 2)]
         rng.shuffle(lhdr)
         rng.shuffle(rhdr)
-        ragged = 0.3 if (op != 'antijoin' and rng.random() < 0.3) else 0.0
+        # antijoin passes left rows through as they are; a key cell a row does not have counts as None on either side
+        ragged = 0.3 if rng.random() < 0.3 else 0.0
 
         def side(hdr, kn, tag, n):
             rows = []
@@ -186,7 +187,7 @@ def judge(case, ctx):
     missing = case['missing']
     if op == 'antijoin':
         exp_hdr, exp_rows = oracles.ref_antijoin(left, right, lkey, rkey)
-        lsq, rsq = (list(left[0]), [tuple(r) for r in left[1:]]), (list(right[0]), [tuple(r) for r in right[1:]])
+        lsq, rsq = oracles.square(left, None), oracles.square(right, None)
     else:
         exp_hdr, exp_rows = oracles.ref_join(op, left, right, lkey, rkey, missing, case['lprefix'], case['rprefix'])
         lsq, rsq = oracles.square(left, missing), oracles.square(right, missing)
@@ -235,8 +236,9 @@ def judge(case, ctx):
         def presort(tbl, sq, kidx):
             raw = [tuple(r) for r in tbl[1:]]
             pairs = sorted(zip(sq[1], raw), key=lambda p: util.model_key(oracles.keytuple(p[0], kidx)))
-            keep_raw = op != 'antijoin'
-            return [sq[0]] + [(r if (keep_raw and all(i < len(r) for i in kidx) and len(r) <= len(sq[0])) else s_) for s_, r in pairs]
+            if op == 'antijoin':
+                return [sq[0]] + [r for s_, r in pairs]        # rows as they are, in the order of their (None-completed) keys
+            return [sq[0]] + [(r if (all(i < len(r) for i in kidx) and len(r) <= len(sq[0])) else s_) for s_, r in pairs]
         a = presort(left, lsq, lk)
         b = presort(right, rsq, rk)
         if any(len(r) != len(a[0]) for r in a[1:]) or any(len(r) != len(b[0]) for r in b[1:]):
